@@ -287,8 +287,28 @@ INTSTRS = ["abc", "-", "", "007", "-0", "12a", " 12", "+5", "1" * 400, "-" + "9"
 NAMES = ["", "\xff\xfe", "a\x00b", "x" * 300, "pi", "E", "I", "oo", "nan", "zoo"]
 
 
+def grey(hx, fmap):
+    """a length / count field of the (mutated) stream announces 2^24 .. 2^32 bytes: the library would
+    allocate and zero-fill that much before failing (slow, not a crash) -- such mutants are skipped"""
+    b = bytes.fromhex(hx)
+    for off, ln, kind in fmap:
+        if kind in ("strlen", "count") and off + 8 <= len(b):
+            v = int.from_bytes(b[off:off + 8], "little")
+            if (1 << 24) <= v * (16 if kind == "count" else 1) and v < (1 << 32):
+                return True
+    return False
+
+
 def mutate(rng, hx, fmap, ncodes):
     """one field-aware mutation of a valid stream; returns (what, hex)"""
+    for _ in range(20):
+        what, out = mutate1(rng, hx, fmap, ncodes)
+        if not grey(out, fmap):
+            return what, out
+    return "identity", hx
+
+
+def mutate1(rng, hx, fmap, ncodes):
     b = bytearray.fromhex(hx)
     toks = [t for t in fmap if t[1] > 0 or t[2] in ("str", "intstr")]
     r = rng.random()
@@ -310,7 +330,12 @@ def mutate(rng, hx, fmap, ncodes):
                 b[off:off + ln] = bytes(reversed(b[off:off + ln]))
         b[0] = rng.choice([0, 0, 2, 255])
         return "byteswapped", bytes(b).hex()
-    off, ln, kind = rng.choice(toks)
+    # a field kind first (so that rare kinds are mutated as often as frequent ones), then a field
+    kinds = sorted(set(t[2] for t in toks))
+    kind = rng.choice(kinds)
+    if kind in ("endian", "major", "minor") and rng.random() < 0.7:
+        kind = rng.choice(kinds)
+    off, ln, kind = rng.choice([t for t in toks if t[2] == kind])
     what = "%s@%d" % (kind, off)
     if kind == "tc":
         old = b[off]
